@@ -15,8 +15,8 @@ This file adds the two readings C04 needs about that text:
   parentheses, then `NOT`, then `AND`, then `OR`.  Everything between connectives at parenthesis depth 0 of the current
   group is an opaque atom (string literals are single tokens of the scanner `SqlText.lex`, sub-selects and function
   calls sit in parentheses: neither is searched for connectives).  A parenthesised operand is a boolean group unless
-  it is a sub-select.  Shapes the reading does not know (`NOT` inside an atom as in `is not null`, an empty operand,
-  unbalanced parentheses) yield `none`.  TRUSTED: this is my model of PostgreSQL's grammar for NOT / AND / OR.
+  it is a sub-select.  Shapes the reading does not know (`NOT` inside an atom as in `is not null`, `BETWEEN … AND`,
+  `CASE`, an empty operand, unbalanced parentheses) yield `none`.  TRUSTED: this is my model of PostgreSQL's grammar for NOT / AND / OR.
 
 The tokens are those of the scanner model itself: `pieceToks ps` is `SqlText.lexL` applied to every piece. -/
 namespace FilterSem
@@ -25,7 +25,9 @@ open SqlText
 /-! ## tokens as the boolean reading sees them -/
 
 inductive Cls where
-  | lp | rp | knot | kand | kor | other
+  | lp | rp | knot | kand | kor
+  | refused      -- `between` (its `and` is not a connective), `case`: shapes this reading does not know
+  | other
 deriving DecidableEq, Repr
 
 def lowerChars (s : String) : Chars := s.toList.map Char.toLower
@@ -36,7 +38,8 @@ def cls (t : Tok) : Cls :=
   | .punct c => if c = '(' then .lp else if c = ')' then .rp else .other
   | .ident s =>
     let l := lowerChars s
-    if l = ['n', 'o', 't'] then .knot else if l = ['a', 'n', 'd'] then .kand else if l = ['o', 'r'] then .kor else .other
+    if l = ['n', 'o', 't'] then .knot else if l = ['a', 'n', 'd'] then .kand else if l = ['o', 'r'] then .kor
+    else if l = ['b', 'e', 't', 'w', 'e', 'e', 'n'] ∨ l = ['c', 'a', 's', 'e'] then .refused else .other
   | _ => .other
 
 def isOrC : Cls → Bool
@@ -46,7 +49,7 @@ def isAndC : Cls → Bool
   | .kand => true
   | _ => false
 def isConn : Cls → Bool
-  | .knot | .kand | .kor => true
+  | .knot | .kand | .kor | .refused => true
   | _ => false
 def never : Cls → Bool := fun _ => false
 
@@ -129,7 +132,7 @@ def oneEqOne : List Tok := [(.num, "1"), (.op "=", ""), (.num, "1")]
 /-! ## the reading -/
 
 /-- an operand that is not a boolean group: one opaque condition — provided its parentheses balance and no connective
-(`NOT` included: `is not null`, `not in` … are shapes this reading refuses) stands at its depth 0 -/
+(`NOT` included: `is not null`, `not in` …, and `between` / `case`, are shapes this reading refuses) stands at its depth 0 -/
 def atomOf (ts : List Tok) : Option BTree :=
   if ts.isEmpty then none
   else if topFree isConn ts then some (if ts = oneEqOne then .tt else .atom ts)
